@@ -728,3 +728,18 @@ def cases(rng, tier):
         yield ("eui_words_to_int", [wl, ws, nw], "words")
     for c in pystr_cases.cases(rng, tier):
         yield c
+
+
+# ---- object-lifecycle checks (harness/lifecycle.py): objects with a history behave like fresh ones, results do not
+# alias operands, failed mutators change nothing.  The functional model has no hidden state: its answer is "no discrepancy".
+from harness import lifecycle as _life
+IMPL.update(_life.IMPL)
+ORACLE.update(_life.ORACLE)
+EXACT = tuple(EXACT) + ("life",)
+RULE = RULE + " | lifecycle: observe-mutate-observe vs a fresh object, aliasing of results, failure atomicity (eui)"
+_cases_without_life = cases
+
+
+def cases(rng, tier):
+    yield from _cases_without_life(rng, tier)
+    yield from _life.cases(rng, tier, {'eui'})
